@@ -29,6 +29,7 @@ class LocalDeme(AbstractDeme):
         # scipy always minimises: on a maximisation problem it is handed the negated objective.
         sign = -1.0 if self._problem.maximize else 1.0
         n_calls = 0
+        box = np.asarray(self._bounds, dtype=float)
 
         def fun(x):
             nonlocal n_calls
@@ -37,7 +38,8 @@ class LocalDeme(AbstractDeme):
                 # such an iterate is not a point of the domain, the objective is not asked about it.
                 return np.inf
             n_calls += 1
-            return sign * self._problem.evaluate(x)
+            # A probe of the numerical derivative may round one ulp past a face (boxes narrower than its step).
+            return sign * self._problem.evaluate(np.clip(x, box[:, 0], box[:, 1]))
 
         result = sopt.minimize(
             fun,
